@@ -197,9 +197,39 @@ static const char *xattr_details =
 "    system.posix_acl_access=0sSGVsbG8gdGhlcmUgOi0pCg==\n"
 "\n\n";
 
+/*
+  Parse the argument of an option that takes a plain number. Same syntax as
+  before (decimal, or hex/octal with the usual C prefix), but the whole
+  argument has to be a number that is not larger than the given maximum.
+  Prints an error message and returns -1 otherwise.
+ */
+static int parse_number_arg(const char *optname, const char *str,
+			    sqfs_u64 max, sqfs_u64 *out)
+{
+	unsigned long long value;
+	char *end;
+
+	if (*str < '0' || *str > '9')
+		goto fail;
+
+	errno = 0;
+	value = strtoull(str, &end, 0);
+
+	if (errno != 0 || *end != '\0' || value > max)
+		goto fail;
+
+	*out = value;
+	return 0;
+fail:
+	fprintf(stderr, "%s: '%s' is not a number between 0 and %llu.\n",
+		optname, str, (unsigned long long)max);
+	return -1;
+}
+
 void process_command_line(options_t *opt, int argc, char **argv)
 {
 	bool have_compressor;
+	sqfs_u64 number;
 	int i, ret;
 
 	memset(opt, 0, sizeof(*opt));
@@ -220,11 +250,19 @@ void process_command_line(options_t *opt, int argc, char **argv)
 			opt->dirscan_flags &= ~DIR_SCAN_KEEP_GID;
 			break;
 		case 'u':
-			opt->force_uid_value = strtol(optarg, NULL, 0);
+			if (parse_number_arg("--set-uid", optarg, 0xFFFFFFFF,
+					     &number)) {
+				exit(EXIT_FAILURE);
+			}
+			opt->force_uid_value = number;
 			opt->dirscan_flags &= ~DIR_SCAN_KEEP_UID;
 			break;
 		case 'g':
-			opt->force_gid_value = strtol(optarg, NULL, 0);
+			if (parse_number_arg("--set-gid", optarg, 0xFFFFFFFF,
+					     &number)) {
+				exit(EXIT_FAILURE);
+			}
+			opt->force_gid_value = number;
 			opt->dirscan_flags &= ~DIR_SCAN_KEEP_GID;
 			break;
 		case 'T':
@@ -260,10 +298,18 @@ void process_command_line(options_t *opt, int argc, char **argv)
 			}
 			break;
 		case 'j':
-			opt->cfg.num_jobs = strtol(optarg, NULL, 0);
+			if (parse_number_arg("--num-jobs", optarg, SIZE_MAX,
+					     &number)) {
+				exit(EXIT_FAILURE);
+			}
+			opt->cfg.num_jobs = number;
 			break;
 		case 'Q':
-			opt->cfg.max_backlog = strtol(optarg, NULL, 0);
+			if (parse_number_arg("--queue-backlog", optarg, SIZE_MAX,
+					     &number)) {
+				exit(EXIT_FAILURE);
+			}
+			opt->cfg.max_backlog = number;
 			break;
 		case 'B':
 			if (parse_size("Device block size",
